@@ -44,6 +44,14 @@ CHECKS = {
          "model_checking",
          "Bounded model checking of operation histories (length 3 quick / 4 thorough over a 7-10 operation vocabulary) and of two-thread schedules with pre-emption bound 1-2 at statement granularity; identity is demanded while the harness holds a reference.",
          "Trusted: CPython reference counting for weak entries (gc.collect() after a drop), GIL-granularity atomicity of dict/OrderedDict/WeakValueDictionary calls, the AST rewriting, the model mutex. All values are pinned per path (these cells enumerate a finite configuration space through the solver); real OS threads are outside.", "§5 C18", "seqz"),
+ "C09": ("symbolic execution (CrossHair core + z3) of relativedelta(dt1, dt2) and of dt2 + r through the real __init__/__add__; months, days and times of both operands are solver variables, z3 proves inverse law, normalised ranges, sign consistency and maximality of the month part on each path; path-exhaustive per cell",
+         "model_checking",
+         "Bounded symbolic model checking: operand years are cell parameters (representative leap/century/boundary years, year difference per cell); everything else is symbolic over its full range.",
+         "Trusted: CrossHair's datetime model with the calendar stubs (fork-free leap/ordinal terms, forward-map decomposition, field-triple memo), fork-free calendar.monthrange shim; each path witness replayed natively on real datetime. Years outside the cell list are outside; one thorough cell keeps both years symbolic.", "§5 C09", "chx"),
+ "C03": ("symbolic execution (CrossHair core + z3) of date/datetime +- relativedelta through the real __add__/__radd__/__rsub__/__neg__ against an independent fork-free reference (replace, month shift with clipping, exact duration, weekday jump) in ordinal / microsecond-of-day space; path-exhaustive per cell",
+         "model_checking",
+         "Bounded symbolic model checking: operand year and relative years are cell parameters; month, day, time of day, relative months/days/leapdays/time fields, absolute fields (day up to 31) and weekday index/n are solver variables.",
+         "Trusted: as C09; stored relative fields assumed normalised (C16 proves the constructor establishes that). yearday/nlyearday, aware operands and float fields are outside.", "§5 C03", "chx"),
 }
 NA = {}
 
